@@ -83,9 +83,44 @@ def _gen_jitter_overlap(rng, idx):
           'jitter': jitter, 'rseed': rng.randint(0, 1 << 30), 'ops': ops}
 
 
+def _gen_rolling(rng, idx):
+  """Rolling restart: active members leave, and the replacement that is still connecting (open in flight,
+  auto-open off) leaves / fails / goes down as well, with and without further idle members; then demand."""
+  min_size = rng.choice([1, 1, 1, 2])
+  members = min_size + rng.choice([1, 2, 2, 3, 4])
+  members = min(members, 6)
+  ops = [['opendone', 0, 1] for _ in range(min_size)]
+  if rng.random() < 0.5:
+    ops += [['disp']] * rng.randint(1, 3)
+  ops.append(['auto', 0])
+  for _ in range(rng.randint(2, 5)):
+    q = rng.random()
+    if q < 0.35:
+      ops.append(['leave_active', rng.randint(0, 3)])
+    elif q < 0.65:
+      ops.append(['leave_pending', rng.randint(0, 3)])
+    elif q < 0.75:
+      ops.append(['opendone', rng.randint(0, 3), 0])
+    elif q < 0.85:
+      ops.append(['opendone', rng.randint(0, 3), 1])
+      ops.append(['chan_active', rng.randint(0, 3), 4])
+    elif q < 0.93:
+      ops.append(['disp'])
+    else:
+      ops.append(['adv', rng.choice([250, 1000])])
+  if rng.random() < 0.5:
+    ops += [['disp'], ['comp', 0], ['disp']]
+  ops.append(['steady', rng.choice([1, 2, 3]), rng.choice([6, 20, 65]), 1000, rng.randint(0, 1)])
+  ops.append(['drain'])
+  return {'min_size': min_size, 'max_size': rng.choice([min_size, min_size + 1, 5]), 'band': list(BANDS[idx % 3]),
+          'members': members, 'jitter': 0, 'rseed': rng.randint(0, 1 << 30), 'ops': ops}
+
+
 def _gen_script(rng, idx):
   if idx % 6 == 5:
     return _gen_jitter_overlap(rng, idx)
+  if idx % 6 == 2:
+    return _gen_rolling(rng, idx)
   band = BANDS[idx % 3] if rng.random() < 0.8 else BANDS[0]
   min_size = rng.choice([1, 1, 2, 2, 3])
   max_size = rng.choice([1, 2, 3, 3, 4, 5, 5])
@@ -548,6 +583,34 @@ def run_case(script):
       guarded(ss.on_leave, servers[op[1]])
       emit('Leave', m=op[1])
       istep('Leave', m=op[1])
+    elif k in ('leave_active', 'leave_pending', 'chan_active'):
+      # members chosen by role: active = has a live (created, not closed by the balancer) channel and is a member;
+      # pending = its channel's Open() is still in flight
+      if k == 'leave_pending':
+        ms = sorted(set(c.m for c in pending_opens() if c.m in S and not c.closed_seen))
+      else:
+        ms = sorted(set(c.m for c in chans if c.m in S and not c.closed_seen))
+        if k == 'leave_active':
+          # prefer members whose open already completed (the established ones)
+          est = [m for m in ms if any(c.m == m and not c.closed_seen and c.open_ar is not None and c.open_ar.ready()
+                                      for c in chans)]
+          ms = est or ms
+      if not ms:
+        continue
+      m = ms[op[1] % len(ms)]
+      if k == 'chan_active':
+        c = [c for c in chans if c.m == m and not c.closed_seen][-1]
+        if c.open_ar is not None and not c.open_ar.ready():
+          continue
+        lv = live_of(c) if impl else 0
+        c._state = op[2]
+        emit('Chan', c=c.cid, st=op[2])
+        istep('Flip', m=c.m, st=op[2], live=lv)
+      else:
+        S.discard(m)
+        guarded(ss.on_leave, servers[m])
+        emit('Leave', m=m)
+        istep('Leave', m=m)
     elif k == 'chan':
       cs = [c for c in chans if c.m == op[1]]
       if not cs:
@@ -769,7 +832,7 @@ def replay_behaviours(prop, tier, seed):
 
 def models(prop, tier):
   q = [
-    dict(module='Aperture', cfg='Aperture_q_jit.cfg', coverage=True, may_be_unused=['Join', 'Leave', 'ChanFlip'], workers=8,
+    dict(module='Aperture', cfg='Aperture_q_jit.cfg', coverage=True, may_be_unused=['Join', 'Leave', 'ChanFlip', 'DispatchEmpty'], workers=8,
          what='3 members static, min 1 max 2, band (0.5,2), <=2 outstanding, jitter rounds, every open/callback interleaving'),
     dict(module='Aperture', cfg='Aperture_q_dyn.cfg', coverage=True, may_be_unused=['JitterFire'], workers=8,
          what='3 endpoints, 2 initial, joins/leaves/channel flips/failing opens (2 env events), 1 outstanding'),
